@@ -252,7 +252,7 @@ def p_expression_none(p):
 
 
 def p_expression_not(p):
-    """ expression : NOT expression """
+    """ expression : NOT expression %prec UNOT """
     p[0] = UnaryOp('not', p[2])
 
 
